@@ -191,7 +191,7 @@ impl SubCheck for Sequence {
 		"sequence"
 	}
 	fn cases(&self, tier: Tier) -> u32 {
-		tier.pick(120_000, 4_000_000)
+		tier.pick(1_000_000, 20_000_000)
 	}
 	fn strategy(&self, tier: Tier) -> BoxedStrategy<SeqCase> {
 		let d = tier.pick(3, 6);
